@@ -26,6 +26,10 @@ def call(fn, a): return {"e": "call", "fn": fn, "a": a}
 
 def decl(n, x): return {"s": "decl", "n": n, "x": x}
 def set_(n, x): return {"s": "set", "n": n, "x": x}
+def pset(n, path, x, dollar=True):
+    """path: list of field names (str) and index expressions (dict)"""
+    return {"s": "pset", "n": n, "x": x, "dollar": dollar,
+            "path": [{"k": "f", "name": a, "x": lit(vnull())} if isinstance(a, str) else {"k": "i", "name": "", "x": a} for a in path]}
 def expr(x): return {"s": "expr", "x": x}
 def ret(x, status=0): return {"s": "ret", "x": x, "status": status}
 def guard_(c, status, msg): return {"s": "guard", "c": c, "status": status, "msg": msg}
@@ -462,7 +466,7 @@ class Gen:
 
 def all_programs(tier, seed):
     rnd = random.Random(seed)
-    progs = operator_table() + precedence_table() + control_table() + optimizer_table() + match_table() + string_table() + status_table() + function_table() + special_numbers_table() + builtin_table() + module_table()
+    progs = operator_table() + precedence_table() + control_table() + optimizer_table() + match_table() + string_table() + status_table() + function_table() + special_numbers_table() + builtin_table() + module_table() + element_table() + equality_table()
     g = Gen(rnd)
     for _ in range(600 if tier == "quick" else 8000):
         progs.append(g.program())
@@ -1020,6 +1024,103 @@ def module_table():
     P([set_("over", I(6)), ret(I(1))], ["function-assigned"])
     P([ret(fcall("g"))], ["function-assigned", "in-a-function"], funcs=(over, func("g", [], [set_("over", I(6)), ret(I(1))])))
     P([ret(fcall("g"))], ["variable-named-like-a-function", "in-a-function"], funcs=(over, func("g", [], [decl("over", I(6)), ret(var("over"))])))
+    return out
+
+
+# ---- assignment to an element: $ o.a.b = v, a[i] = v, $ o.items[i] = v ------------------------------------------------
+def element_table():
+    out = []
+    I = lambda n: lit(vint(n))
+    S = lambda x: lit(vstr(x))
+    add = lambda a, b: bin_("+", a, b)
+    P = lambda body, tags, vars_=(), funcs=(), consts=(): out.append(prog("", body, vars_, ["elements"] + tags, list(funcs), consts))
+    O = lambda: obj([("x", I(1)), ("p", obj([("q", I(2)), ("items", arr([I(3), I(4)]))])), ("items", arr([I(5), I(6)]))])
+    A = lambda: arr([arr([I(1), I(2)]), arr([I(3)]), I(9)])
+    # field paths
+    P([decl("o", O()), pset("o", ["x"], I(7)), ret(var("o"))], ["field", "existing"])
+    P([decl("o", O()), pset("o", ["y"], I(7)), ret(var("o"))], ["field", "new"])
+    P([decl("o", O()), pset("o", ["p", "q"], I(7)), ret(var("o"))], ["field", "nested"])
+    P([decl("o", O()), pset("o", ["p", "r"], S("n")), ret(var("o"))], ["field", "nested-new"])
+    P([decl("o", O()), pset("o", ["zz", "q"], I(7)), ret(var("o"))], ["field", "through-a-missing-field"])
+    P([decl("o", O()), pset("o", ["x", "q"], I(7)), ret(var("o"))], ["field", "through-a-number"])
+    P([decl("o", I(1)), pset("o", ["x"], I(7)), ret(var("o"))], ["field", "of-a-number"])
+    P([decl("o", arr([I(1)])), pset("o", ["x"], I(7)), ret(var("o"))], ["field", "of-an-array"])
+    P([pset("nosuch", ["x"], I(7)), ret(I(1))], ["field", "of-an-undeclared-variable"])
+    P([decl("o", O()), pset("o", ["x"], bin_("/", I(1), I(0))), ret(var("o"))], ["field", "value-fails"])
+    P([decl("o", O()), pset("o", ["x"], add(field(var("o"), "x"), I(1))), pset("o", ["x"], add(field(var("o"), "x"), I(1))), ret(field(var("o"), "x"))], ["field", "read-modify-write-twice"])
+    P([decl("o", O()), if_(lit(vbool(True)), [pset("o", ["x"], I(7))]), ret(var("o"))], ["field", "of-an-outer-variable-from-a-block"])
+    P([decl("o", O()), decl("i", I(0)), while_(bin_("<", var("i"), I(3)), [pset("o", ["x"], add(field(var("o"), "x"), var("i"))), set_("i", add(var("i"), I(1)))]), ret(field(var("o"), "x"))], ["field", "in-a-loop"])
+    P([decl("o", O()), pset("o", ["x"], I(7), dollar=False), ret(var("o"))], ["field", "written-without-dollar"])
+    P([decl("o", O()), pset("o", ["p", "q"], I(7), dollar=False), ret(var("o"))], ["field", "nested", "written-without-dollar"])
+    # index paths
+    P([decl("a", A()), pset("a", [I(2)], I(7), dollar=False), ret(var("a"))], ["index", "existing"])
+    P([decl("a", A()), pset("a", [I(2)], I(7)), ret(var("a"))], ["index", "existing", "with-dollar"])
+    P([decl("a", A()), pset("a", [I(0), I(1)], I(7), dollar=False), ret(var("a"))], ["index", "nested"])
+    P([decl("a", A()), pset("a", [I(3)], I(7), dollar=False), ret(var("a"))], ["index", "one-past-the-end"])
+    P([decl("a", A()), pset("a", [I(-1)], I(7), dollar=False), ret(var("a"))], ["index", "negative"])
+    P([decl("a", A()), pset("a", [S("x")], I(7), dollar=False), ret(var("a"))], ["index", "string-into-array"])
+    P([decl("a", A()), pset("a", [I(2), I(0)], I(7), dollar=False), ret(var("a"))], ["index", "into-a-number"])
+    P([decl("a", A()), pset("a", [I(5), I(0)], I(7), dollar=False), ret(var("a"))], ["index", "through-out-of-bounds"])
+    P([decl("a", A()), pset("a", [bin_("-", I(2), I(1)), I(0)], add(idx(idx(var("a"), I(0)), I(1)), I(10)), dollar=False), ret(var("a"))], ["index", "computed-index-and-value-from-the-array"])
+    P([decl("a", A()), pset("a", [bin_("/", I(1), I(0))], I(7), dollar=False), ret(var("a"))], ["index", "index-fails"])
+    P([decl("a", A()), pset("a", [I(0)], bin_("/", I(1), I(0)), dollar=False), ret(var("a"))], ["index", "value-fails"])
+    P([pset("nosuch", [I(0)], I(7), dollar=False), ret(I(1))], ["index", "of-an-undeclared-variable"])
+    P([decl("a", I(5)), pset("a", [I(0)], I(7), dollar=False), ret(var("a"))], ["index", "of-a-number"])
+    P([decl("a", S("abc")), pset("a", [I(0)], S("z"), dollar=False), ret(var("a"))], ["index", "of-a-string"])
+    P([decl("o", O()), pset("o", [S("x")], I(7), dollar=False), ret(var("o"))], ["key", "existing"])
+    P([decl("o", O()), pset("o", [S("k")], I(7), dollar=False), ret(var("o"))], ["key", "new"])
+    P([decl("o", O()), pset("o", [S("p"), S("q")], I(7), dollar=False), ret(var("o"))], ["key", "nested"])
+    P([decl("o", O()), pset("o", [S("zz"), S("q")], I(7), dollar=False), ret(var("o"))], ["key", "through-a-missing-key"])
+    P([decl("o", O()), pset("o", [I(0)], I(7), dollar=False), ret(var("o"))], ["key", "number-into-object"])
+    P([decl("o", O()), pset("o", [S("p"), "q"], I(7), dollar=False), ret(var("o"))], ["key", "then-field"])
+    # fields then an index (the `$` form is the one the language has)
+    P([decl("o", O()), pset("o", ["items", I(1)], I(7)), ret(var("o"))], ["field-then-index"])
+    P([decl("o", O()), pset("o", ["p", "items", I(0)], I(7)), ret(var("o"))], ["field-then-index", "two-fields"])
+    P([decl("o", O()), pset("o", ["items", I(2)], I(7)), ret(var("o"))], ["field-then-index", "out-of-bounds"])
+    P([decl("o", O()), pset("o", ["items", I(1)], I(7), dollar=False), ret(var("o"))], ["field-then-index", "written-without-dollar"])
+    P([decl("o", O()), pset("o", ["zz", I(0)], I(7)), ret(var("o"))], ["field-then-index", "missing-field"])
+    P([decl("a", arr([obj([("n", I(1))]), obj([("n", I(2))])])), pset("a", [I(1), "n"], I(7), dollar=False), ret(var("a"))], ["index-then-field"])
+    # loops filling an array
+    P([decl("a", arr([I(0), I(0), I(0)])), decl("i", I(0)), while_(bin_("<", var("i"), I(3)), [pset("a", [var("i")], bin_("*", var("i"), var("i")), dollar=False), set_("i", add(var("i"), I(1)))]), ret(var("a"))], ["index", "filled-in-a-loop"])
+    P([decl("a", arr([I(3), I(1), I(2)])), decl("t", idx(var("a"), I(0))), pset("a", [I(0)], idx(var("a"), I(2)), dollar=False), pset("a", [I(2)], var("t"), dollar=False), ret(var("a"))], ["index", "swap"])
+    # a function's parameter is the caller's value, not the caller's variable
+    # (the implementation shares the array: outside the definition, not judged) -- kept out of the table
+    # constants cannot be assigned into
+    C = (("CONF", vobj([("a", vint(1))])), ("NAMES", varr([vstr("a"), vstr("b")])))
+    P([pset("CONF", ["a"], I(2)), ret(var("CONF"))], ["constant", "field"], consts=C)
+    P([pset("NAMES", [I(0)], S("z"), dollar=False), ret(var("NAMES"))], ["constant", "index"], consts=C)
+    P([pset("CONF", [S("k")], I(2), dollar=False), ret(var("CONF"))], ["constant", "key"], consts=C)
+    P([ret(fcall("poke"))], ["constant", "field", "in-a-function"], consts=C, funcs=(func("poke", [], [pset("CONF", ["a"], I(2)), ret(var("CONF"))]),))
+    return out
+
+
+# ---- equality looks through containers: numbers compare by value at every depth -------------------------------------
+def equality_table():
+    out = []
+    I = lambda n: lit(vint(n))
+    F = lambda x: lit(vfloat(x))
+    S = lambda x: lit(vstr(x))
+    P = lambda body, tags, vars_=(): out.append(prog("", body, vars_, ["equality"] + tags))
+    pairs = {
+        "array-int-float": (arr([I(1), I(2)]), arr([F(1.0), F(2.0)])),
+        "array-float-int-differs": (arr([I(1), I(2)]), arr([F(1.0), F(2.5)])),
+        "nested-array": (arr([arr([I(1)]), arr([I(2), arr([I(3)])])]), arr([arr([F(1.0)]), arr([F(2.0), arr([F(3.0)])])])),
+        "object-field": (obj([("x", I(0))]), obj([("x", F(0.0))])),
+        "object-in-array": (arr([obj([("a", I(1)), ("b", S("s"))])]), arr([obj([("b", S("s")), ("a", F(1.0))])])),
+        "array-in-object": (obj([("k1", arr([I(1), I(2)]))]), obj([("k1", arr([F(1.0), F(2.0)]))])),
+        "mixed-positions": (arr([I(1), F(2.0), I(3)]), arr([F(1.0), I(2), F(3.0)])),
+        "int-vs-string-inside": (arr([I(1)]), arr([S("1")])),
+        "bool-vs-int-inside": (arr([lit(vbool(True))]), arr([I(1)])),
+        "null-vs-zero-inside": (arr([lit(vnull())]), arr([I(0)])),
+    }
+    for name, (a, b) in pairs.items():
+        P([ret(arr([bin_("==", a, b), bin_("!=", a, b), bin_("==", b, a)]))], ["literals", name])
+        P([decl("a", a), decl("b", b), ret(arr([bin_("==", var("a"), var("b")), bin_("!=", var("a"), var("b"))]))], ["variables", name])
+        P([decl("a", a), switch(var("a"), [(b, [ret(S("case"))])], [ret(S("default"))])], ["switch", name])
+        P([decl("a", a), decl("r", S("none")), for_(None, "v", arr([b, a]), [if_(bin_("==", var("v"), var("a")), [set_("r", bin_("+", var("r"), S("+")))])]), ret(var("r"))], ["in-a-loop", name])
+    P([ret(bin_("==", arr([var("x"), I(2)]), arr([I(1), I(2)])))], ["from-input", "float-input-against-int-literal"], [("x", vfloat(1.0))])
+    P([ret(bin_("==", obj([("p", arr([var("x")]))]), obj([("p", arr([F(3.0)]))])))], ["from-input", "int-input-against-float-literal"], [("x", vint(3))])
+    P([ret(match_(arr([F(1.0), F(2.0)]), [(parr([plit(vint(1)), plit(vint(2))]), None, S("ints")), (pwild(), None, S("other"))]))], ["match-literal-patterns"])
     return out
 
 
